@@ -8,7 +8,7 @@ and container updates and the number of rejecting checks before its first write 
 `Generated/C03Mutators.lean`; the obligations on that table are discharged by computation on the generated
 definitions (`C03_table_*`), so a removed decorator or a moved `_remove_id` breaks this file on the next run.
 -/
-import MxlVerif.Lemmas.C03Ids
+import MxlVerif.Lemmas.C03Rebuild
 namespace Mxl.C03
 open Mxl
 
@@ -99,6 +99,27 @@ theorem C03_table_scripts :
       [.guard "KeyError", .cwrite "_data" "set"],
       [.cwrite "_data" "pop", .rem] ] := by decide
 
+/-- The rejecting statements of the mutator bodies WITH their conditions, as read from the source: the four
+    `update_*` forms reject a name that is not a key of their own container; `make_parameter_dynamic` rejects, BEFORE it
+    converts the parameter, every flux name that is neither a reaction nor a surrogate flux with a NON-EMPTY
+    stoichiometry (`surrogate.stoichiometries.get(name)` truthy — the model's `isFlux` / `surHasFlux`), and its writing
+    loop looks for exactly the same targets (`:=` … truthy), so that its late `raise` cannot fire
+    (`makeParameterDynamic_good`).  No other mutator has an explicit rejecting statement.  A reworded condition makes
+    this fail on the next run. -/
+theorem C03_table_guards :
+    Gen.guards .update_parameter = ["if v0 not in self._parameters:; raise KeyError"] ∧
+    Gen.guards .update_variable = ["if v0 not in self._variables:; raise KeyError"] ∧
+    Gen.guards .update_surrogate = ["if v0 not in self._surrogates:; raise KeyError"] ∧
+    Gen.guards .update_data = ["if v0 not in self._data:; raise KeyError"] ∧
+    Gen.guards .make_parameter_dynamic =
+      ["for v4 in v2 or {}:; if v4 not in self._reactions and (not any((v5.stoichiometries.get(v4) for v5 in self._surrogates.values()))):; raise KeyError",
+       "if v2 is not None:; for v4, v3 in v2.items():; v6 = False; if (v7 := self._reactions.get(v4)) is not None:; v6 = True; v7.stoichiometry[v0] = v3; else:; for v5 in self._surrogates.values():; if (v8 := v5.stoichiometries.get(v4)):; v6 = True; v8[v0] = v3; if not v6:; raise KeyError"] ∧
+    (∀ m, m ∉ [Gen.Mut.update_parameter, .update_variable, .update_surrogate, .update_data, .make_parameter_dynamic] →
+      Gen.guards m = []) := by
+  refine ⟨rfl, rfl, rfl, rfl, rfl, ?_⟩
+  intro m hm
+  cases m <;> first | rfl | (exact absurd (by decide) hm)
+
 /-- "validate first": no mutator has a rejecting statement after its first write, except the final
     `if not target: raise` of `make_parameter_dynamic` (which the model carries as `setStoich`'s failure and
     `makeParameterDynamic_good` proves unreachable after the up-front check); and every method that the model
@@ -131,6 +152,64 @@ theorem C03_table_containers :
 theorem C03_table_eq_fields :
     Gen.eqFields = ["_ids", "_variables", "_parameters", "_derived", "_readouts", "_reactions", "_surrogates",
       "_data"] := rfl
+
+/-! ## the whole public surface of `class Model` -/
+
+/-- Every public function the class body defines is one of the 30 mutators (`C03_table_mutators`), or a reader the
+    model answers, or a reader named as out of scope with its reason — and every name listed exists in the source.
+    (The translator has already refused the source if any non-mutator writes `_ids` or a container, directly or
+    through a call on `self`, or writes `_cache` outside `_create_cache`.)  A NEW public method makes this fail. -/
+theorem C03_table_surface :
+    (∀ r ∈ Gen.readers, r.1 ∈ modelledEntries ∨ r.1 ∈ outOfScope.map (·.1)) ∧
+    (∀ n ∈ modelledEntries ++ outOfScope.map (·.1), n = "__eq__" ∨ n ∈ Gen.readers.map (·.1)) ∧
+    Gen.properties = ["ids", "parameters", "variables", "derived", "reactions"] ∧
+    Gen.privates = ["_create_cache", "_insert_id", "_check_new_ids", "_check_known_names", "_remove_id",
+      "_scaled_value", "_get_args", "_get_args_time_course", "_get_right_hand_side"] ∧
+    -- the only places where one of the model's own dictionaries leaves a non-mutator uncopied: the
+    -- `as_copy=False` escape of `get_raw_*` and a local alias that is only read
+    Gen.liveRefs = [("get_raw_parameters", "_parameters"), ("get_raw_variables", "_variables"),
+      ("get_raw_derived", "_derived"), ("get_derived_variables", "_derived"), ("get_derived_parameters", "_derived"),
+      ("get_raw_reactions", "_reactions"), ("get_raw_readouts", "_readouts"), ("get_raw_surrogates", "_surrogates")] := by
+  refine ⟨by decide, by decide, rfl, rfl, rfl⟩
+
+/-- The model's classification of the query forms agrees with the source: a form the model answers from the cache
+    stands for a method that does reach `self._cache`; a form the model answers WITHOUT a cache stands for a method
+    that cannot reach it (so it cannot be stale) — except `get_arg_names`, which reaches it only under the two
+    derived flags, and `==`, which is the dataclass' own. -/
+theorem C03_query_entry (q : Query) :
+    q.entry ∈ modelledEntries ∧
+    (q.needsCache = true → Gen.readers.lookup q.entry = some true) ∧
+    (q.needsCache = false →
+      q.entry = "get_arg_names" ∨ q.entry = "__eq__" ∨ Gen.readers.lookup q.entry = some false) := by
+  cases q with
+  | names nq => cases nq <;> first | decide | exact ⟨by simp [Query.entry, modelledEntries], fun h => (by cases h), fun _ => Or.inr (Or.inr rfl)⟩
+  | argNames fl => exact ⟨by simp [Query.entry, modelledEntries], fun _ => rfl, fun _ => Or.inl rfl⟩
+  | rawStoich x => exact ⟨by simp [Query.entry, modelledEntries], fun h => (by cases h), fun _ => Or.inr (Or.inr rfl)⟩
+  | eqFresh => decide
+  | init => decide
+  | pvals => decide
+  | classes => decide
+  | _ => exact ⟨by simp [Query.entry, modelledEntries], fun _ => rfl, fun h => (by cases h)⟩
+
+/-- The private helpers the model's `insertId`, `removeId`, `checkNewIds`, `checkKnown`, `scaledValue` and `inval` are
+    written after, statement by statement as read from the source (messages dropped, locals renamed by first
+    appearance): `_insert_id` rejects "time", then a taken name, then stores; `_check_new_ids` starts from the ids
+    minus `replaced` and adds each accepted name; `_check_known_names` rejects an unknown or repeated name;
+    `_scaled_value` reads the parameter, goes through the cache only for an initial assignment and writes nothing;
+    the `@_invalidate_cache` wrapper clears `_cache` unconditionally before it calls the method. -/
+theorem C03_table_helpers :
+    Gen.helperBodies =
+    [ ("_insert_id", ["if v0 == 'time':; raise KeyError", "if v0 in self._ids:; raise NameError",
+        "self._ids[v0] = v1"]),
+      ("_remove_id", ["del self._ids[v0]"]),
+      ("_check_new_ids", ["v3 = set(self._ids).difference(v2)",
+        "for v4 in v0:; if v4 == 'time':; raise KeyError; if v4 in v3:; raise NameError; v3.add(v4)"]),
+      ("_check_known_names", ["v3 = set()",
+        "for v4 in v0:; if v4 not in v1 or v4 in v3:; raise KeyError; v3.add(v4)"]),
+      ("_scaled_value", ["v2 = self._parameters[v0].value",
+        "if isinstance(v2, InitialAssignment):; if (v3 := self._cache) is None:; v3 = self._create_cache(); v2 = v3.all_parameter_values[v0]",
+        "return v2 * v1"]),
+      ("_invalidate_cache", ["self = v0[0]", "self._cache = None", "return METHOD(*v0, **v1)"]) ] := rfl
 
 /-! ## the cache is never stale -/
 
@@ -225,7 +304,7 @@ theorem C03_fresh_is_core_rhs (c : Content) (hd : c.data = []) (vals : List Rat)
         apply List.filter_eq_self.mpr
         intro kv _
         rfl
-      simp only [pure, Except.pure, this, List.append_nil]
+      simp only [pure, Except.pure, this, List.append_nil, rhsFromArgs2_same]
 
 /-! ## the sanity checks of `_create_cache` (function arities) -/
 
@@ -389,6 +468,181 @@ theorem C03_freed_name_reusable (h : List HOp) (rm : Op) (n : Name)
     show (addVariable n v (step s rm).1).2 = .ok ()
     rw [h2]
 
+/-! ## one name space, operationally -/
+
+/-- A name that is taken — by a component of ANY kind, or as a surrogate output — is refused by the `add_*` of EVERY
+    kind with `NameError` (so, by `C03_rejected_is_noop`, nothing changes). -/
+theorem C03_taken_name_rejected (h : List HOp) (n : Name) (hn : n ∈ omKeys (run init h).ids) :
+    (∀ v, (step (run init h) (.add_parameter n v)).2 = .error (.nameError n)) ∧
+    (∀ v, (step (run init h) (.add_variable n v)).2 = .error (.nameError n)) ∧
+    (∀ f, (step (run init h) (.add_derived n f)).2 = .error (.nameError n)) ∧
+    (∀ r, (step (run init h) (.add_reaction n r)).2 = .error (.nameError n)) ∧
+    (∀ f, (step (run init h) (.add_readout n f)).2 = .error (.nameError n)) ∧
+    (∀ v, (step (run init h) (.add_data n v)).2 = .error (.nameError n)) ∧
+    (∀ su, (step (run init h) (.add_surrogate n su)).2 = .error (.nameError n)) := by
+  have hs := C03_ids_exact h
+  generalize run init h = s at *
+  have hnt := ne_time_of_mem_ids hs hn
+  have key : ∀ {β} (m) (hm : Gen.idOrder m = .idFirst) (L : Lens β) (k) (v : β),
+      (addG m L k n v (inval m s)).2 = .error (.nameError n) := by
+    intro β m hm L k v
+    rw [addG_closed hm]
+    simp [hnt, inval_ids, hn]
+  refine ⟨fun v => key _ (table_add_order _ (by simp)) parsL _ v,
+          fun v => key _ (table_add_order _ (by simp)) varsL _ v,
+          fun f => key _ (table_add_order _ (by simp)) derivedL _ f,
+          fun r => key _ (table_add_order _ (by simp)) rxnsL _ r,
+          fun f => key _ (table_add_order _ (by simp)) readoutsL _ f,
+          fun v => key _ (table_add_order _ (by simp)) dataL _ v, fun su => ?_⟩
+  show (addSurrogate n su s).2 = _
+  unfold addSurrogate
+  simp [table_add_surrogate_checks, checkNewIds, hnt, inval_ids, hn, fail]
+
+/-- …and a freed name can be used again for a component of EVERY kind (parameters and variables:
+    `C03_freed_name_reusable`): derived quantity, reaction, readout, data set, and surrogate (with outputs that are
+    free themselves). -/
+theorem C03_freed_name_any_kind (h : List HOp) (rm : Op) (n : Name)
+    (hrm : rm = .remove_parameter n ∨ rm = .remove_variable n true ∨ rm = .remove_variable n false ∨
+      rm = .remove_derived n ∨ rm = .remove_reaction n ∨ rm = .remove_readout n ∨ rm = .remove_data n ∨
+      rm = .remove_surrogate n)
+    (hok : (step (run init h) rm).2 = .ok ()) :
+    (∀ f, (step (step (run init h) rm).1 (.add_derived n f)).2 = .ok ()) ∧
+    (∀ r, (step (step (run init h) rm).1 (.add_reaction n r)).2 = .ok ()) ∧
+    (∀ f, (step (step (run init h) rm).1 (.add_readout n f)).2 = .ok ()) ∧
+    (∀ v, (step (step (run init h) rm).1 (.add_data n v)).2 = .ok ()) ∧
+    (∀ su, (∀ x ∈ su.outs, x ≠ "time" ∧ x ≠ n ∧ x ∉ omKeys (step (run init h) rm).1.ids) → su.outs.Nodup →
+      (step (step (run init h) rm).1 (.add_surrogate n su)).2 = .ok ()) := by
+  obtain ⟨hnt, hnot, _⟩ := C03_freed_name_reusable h rm n hrm hok
+  have hs' : Exact (step (run init h) rm).1 := step_exact _ rm (C03_ids_exact h)
+  generalize (step (run init h) rm).1 = s at *
+  have cc0 : ∀ x, x ∉ omKeys s.ids → cc s x = 0 := by
+    intro x hx
+    have := hs'.1 x
+    have h0 : idc s x = 0 := List.count_eq_zero.mpr hx
+    omega
+  refine ⟨fun f => (addG_ok_content (table_add_order .add_derived (by simp)) derivedL_law _ n f hs' hnt (cc0 n hnot)).1,
+          fun r => (addG_ok_content (table_add_order .add_reaction (by simp)) rxnsL_law _ n r hs' hnt (cc0 n hnot)).1,
+          fun f => (addG_ok_content (table_add_order .add_readout (by simp)) readoutsL_law _ n f hs' hnt (cc0 n hnot)).1,
+          fun v => (addG_ok_content (table_add_order .add_data (by simp)) dataL_law _ n v hs' hnt (cc0 n hnot)).1,
+          fun su hout hnd => ?_⟩
+  refine (addSurrogate_ok_content n su hs' ?_ ?_).1
+  · intro x hx
+    rcases List.mem_cons.mp hx with rfl | hx
+    · exact ⟨hnt, cc0 _ hnot⟩
+    · exact ⟨(hout x hx).1, cc0 x (hout x hx).2.2⟩
+  · exact List.nodup_cons.mpr ⟨fun hm => (hout n hm).2.1 rfl, hnd⟩
+
+/-! ## the future depends on the content only; a rejected edit cannot be seen, now or later -/
+
+/-- Two histories that end with the same content (and the same function objects) answer EVERY query alike —
+    whatever was added, removed, queried or rejected on the way. -/
+theorem C03_content_determines_answers (h1 h2 : List HOp)
+    (hc : (run init h1).content = (run init h2).content) (hg : (run init h1).sigs = (run init h2).sigs)
+    (q : Query) : (query (run init h1) q).2 = (query (run init h2) q).2 := by
+  by_cases hq : q = .eqFresh
+  · subst hq; rw [C03_eq_fresh h1, C03_eq_fresh h2]
+  · rw [C03_fresh_equiv h1 q hq, C03_fresh_equiv h2 q hq, hc, hg]
+
+/-- …and they have the same future: continued by ANY common history (edits accepted or rejected, queries, deep
+    copies) they keep the same content, ids and signatures, answer every query alike and accept / reject every
+    mutator call alike.  The memoised cache — the only thing in which the two models may differ — never shows. -/
+theorem C03_same_content_same_future (h1 h2 : List HOp)
+    (hc : (run init h1).content = (run init h2).content) (hi : (run init h1).ids = (run init h2).ids)
+    (hg : (run init h1).sigs = (run init h2).sigs) (h : List HOp) :
+    (run init (h1 ++ h)).content = (run init (h2 ++ h)).content ∧
+    (run init (h1 ++ h)).ids = (run init (h2 ++ h)).ids ∧
+    (run init (h1 ++ h)).sigs = (run init (h2 ++ h)).sigs ∧
+    (∀ q, (query (run init (h1 ++ h)) q).2 = (query (run init (h2 ++ h)) q).2) ∧
+    (∀ op given, (stepS (run init (h1 ++ h)) op given).2 = (stepS (run init (h2 ++ h)) op given).2) := by
+  have hsim : Sim (run init h1) (run init h2) :=
+    ⟨forget_eq_iff.mpr ⟨hc, hi, hg⟩, C03_cache_valid h1, C03_cache_valid h2⟩
+  rw [run_append, run_append]
+  exact sim_obs (run_sim h hsim)
+
+/-- A rejected edit changes NOTHING a user can see: content, ids and the stored functions' signatures are exactly
+    as before and the cache is still valid (empty or what `_create_cache` builds) — for every mutator, after any
+    history. -/
+theorem C03_rejected_state (h : List HOp) (op : Op) (given) (e : Err)
+    (hr : (stepS (run init h) op given).2 = .error e) :
+    (stepS (run init h) op given).1.content = (run init h).content ∧
+    (stepS (run init h) op given).1.ids = (run init h).ids ∧
+    (stepS (run init h) op given).1.sigs = (run init h).sigs ∧
+    CacheOK (stepS (run init h) op given).1 := by
+  have hs := rejected_sim (C03_cache_valid h) (C03_ids_exact h) op given e hr
+  obtain ⟨hc, hi, hg, _⟩ := sim_obs hs
+  exact ⟨hc, hi, hg, hs.2.1⟩
+
+/-- Histories that MIX rejected edits: a rejected call can be deleted from any history without changing anything
+    that comes later — final content, ids, signatures, every answer, every later acceptance or rejection. -/
+theorem C03_rejected_transparent (h : List HOp) (op : Op) (given) (e : Err)
+    (hr : (stepS (run init h) op given).2 = .error e) (h' : List HOp) :
+    (run init (h ++ .edit op given :: h')).content = (run init (h ++ h')).content ∧
+    (run init (h ++ .edit op given :: h')).ids = (run init (h ++ h')).ids ∧
+    (run init (h ++ .edit op given :: h')).sigs = (run init (h ++ h')).sigs ∧
+    (∀ q, (query (run init (h ++ .edit op given :: h')) q).2 = (query (run init (h ++ h')) q).2) ∧
+    (∀ op' g', (stepS (run init (h ++ .edit op given :: h')) op' g').2
+      = (stepS (run init (h ++ h')) op' g').2) := by
+  have hs := rejected_sim (C03_cache_valid h) (C03_ids_exact h) op given e hr
+  rw [run_append, run_append]
+  exact sim_obs (run_sim h' hs)
+
+/-- the same for a query that raised (missing dependency, arity mismatch, unknown label …): asking is invisible too -/
+theorem C03_query_transparent (h : List HOp) (q0 : Query) (h' : List HOp) :
+    (run init (h ++ .ask q0 :: h')).content = (run init (h ++ h')).content ∧
+    (run init (h ++ .ask q0 :: h')).ids = (run init (h ++ h')).ids ∧
+    (∀ q, (query (run init (h ++ .ask q0 :: h')) q).2 = (query (run init (h ++ h')) q).2) ∧
+    (∀ op' g', (stepS (run init (h ++ .ask q0 :: h')) op' g').2 = (stepS (run init (h ++ h')) op' g').2) := by
+  have hs : Sim (query (run init h) q0).1 (run init h) := by
+    refine ⟨?_, query_cacheOK _ q0 (C03_cache_valid h), C03_cache_valid h⟩
+    rcases query_fst (run init h) q0 with h1 | h1
+    · rw [h1]
+    · rw [h1]
+      exact forget_eq_iff.mpr ⟨(ensureCache_same _).1, (ensureCache_same _).2, ensureCache_sigs _⟩
+  rw [run_append, run_append]
+  obtain ⟨hc, hi, _, ha, ho⟩ := sim_obs (run_sim h' hs)
+  exact ⟨hc, hi, ha, ho⟩
+
+/-! ## refinement: the edited model IS a freshly built model with the same content, up to the cache -/
+
+/-- The central statement as a refinement.  Take ANY history (edits accepted or rejected, queries, deep copies) and
+    the state `s` it ends in.  Build a new model from scratch by the `add_*` calls of `rebuild` (one per component of
+    `s.content`, container by container — the same calls the harness' fresh-model oracle makes on the real code).
+    Then the new model has EXACTLY the content of `s` (so none of the calls was rejected: a rejected call leaves its
+    component out, `C03_rejected_is_noop`), its `_ids` are those of `s` up to order, its name space is exact, its cache is valid, and it answers every query exactly as `s` does.
+    (`freshAnswer`, the right-hand side of `C03_fresh_equiv`, is therefore what an actual freshly built model
+    answers: `C03_fresh_is_rebuilt`.) -/
+theorem C03_refines_fresh (h : List HOp) :
+    (freshState (run init h)).content = (run init h).content ∧
+    (omKeys (freshState (run init h)).ids).Perm (omKeys (run init h).ids) ∧
+    Exact (freshState (run init h)) ∧ CacheOK (freshState (run init h)) ∧
+    (∀ q, (query (freshState (run init h)) q).2 = (query (run init h) q).2) := by
+  have hs := C03_ids_exact h
+  obtain ⟨hx, hc, hg⟩ := rebuild_spec hs
+  have hok : CacheOK (freshState (run init h)) := C03_cache_valid _
+  refine ⟨hc, ?_, hx, hok, fun q => ?_⟩
+  · have p1 := (C03_one_name_space (rebuild (run init h).sigs (run init h).content)).1
+    have p2 := (C03_one_name_space h).1
+    have e : (run init (rebuild (run init h).sigs (run init h).content)).content = (run init h).content := hc
+    rw [e] at p1
+    exact p1.trans p2.symm
+  · by_cases hq : q = .eqFresh
+    · subst hq
+      rw [C03_eq_fresh h]
+      exact C03_eq_fresh (rebuild (run init h).sigs (run init h).content)
+    · have e1 := C03_fresh_equiv (rebuild (run init h).sigs (run init h).content) q hq
+      have e2 := C03_fresh_equiv h q hq
+      have hc' : (run init (rebuild (run init h).sigs (run init h).content)).content = (run init h).content := hc
+      have hg' : (run init (rebuild (run init h).sigs (run init h).content)).sigs
+          = sigFold (run init h).sigs (fnKeys (run init h).content) [] := hg
+      rw [hc', hg', freshAnswer_rebuilt] at e1
+      exact e1.trans e2.symm
+
+/-- `freshAnswer` is not only a definition: it is what the model built from scratch answers -/
+theorem C03_fresh_is_rebuilt (h : List HOp) (q : Query) (hq : q ≠ .eqFresh) :
+    (query (freshState (run init h)) q).2 = freshAnswer (run init h).sigs (run init h).content q := by
+  rw [(C03_refines_fresh h).2.2.2.2 q]
+  exact C03_fresh_equiv h q hq
+
 /-! ## non-vacuity -/
 
 /-- an explicit history — build, query, update, remove, re-add the freed name under another kind, query —
@@ -434,5 +688,13 @@ example : (match (query (run init (badReadout ++ [.edit (.remove_readout "ro")])
     | .ok (.assoc l) => l == [("x", (1 : Rat))] | _ => false) = true := by decide +kernel
 
 example : arityOK (run init badReadout).sigs (run init badReadout).content = false := by decide +kernel
+
+/-- `C03_rejected_transparent` is not vacuous: a rejected call inside a history (here after a query filled the cache,
+    and the rejected call carries `@_invalidate_cache`, so the two runs really differ in their caches) -/
+example : (match (stepS (run init (demoHistory.take 4)) (.add_parameter "x" (.plain 7)) []).2 with
+    | .error (.nameError n) => n == "x" | _ => false) = true := by decide +kernel
+
+example : (run init (demoHistory.take 4 ++ [.edit (.add_parameter "x" (.plain 7))])).cache.isNone = true ∧
+    (run init (demoHistory.take 4)).cache.isSome = true := by decide +kernel
 
 end Mxl.C03
